@@ -15,6 +15,7 @@ Proof.
   destruct p as [a b c d r ch bps t m]. unfold valid_flac, expected_flac, build_flac_streaminfo, decode_flac_streaminfo, flac_word.
   cbn [fl_minbs fl_maxbs fl_minfs fl_maxfs fl_rate fl_channels fl_bps fl_total fl_md5].
   intros (Ha & Hb & Hc & Hd & Hr & Hch & Hbps & Ht & Hm).
+  rewrite if_false by reflexivity.
   layout.
   remember (r * 17592186044416 + (ch - 1) * 2199023255552 + (bps - 1) * 68719476736 + t) as w eqn:Ew.
   assert (Hw : 0 <= w < 18446744073709551616) by lia.
@@ -32,6 +33,7 @@ Proof.
   intros Ha Hb Hc Hd Hch Hbps Ht Hm.
   unfold build_flac_streaminfo, decode_flac_streaminfo, flac_word.
   cbn [fl_minbs fl_maxbs fl_minfs fl_maxfs fl_rate fl_channels fl_bps fl_total fl_md5].
+  rewrite if_false by reflexivity.
   layout.
   remember (0 * 17592186044416 + (ch - 1) * 2199023255552 + (bps - 1) * 68719476736 + t) as w eqn:Ew.
   assert (Hw : 0 <= w < 18446744073709551616) by lia.
@@ -49,7 +51,7 @@ Proof.
   unfold pack_I_tail, bchr_r.
   repeat (rewrite if_true; [|apply andb_true_iff; split; [apply Z.leb_le; lia | apply Z.ltb_lt; lia]]; cbn [rbind]).
   eexists. split; [reflexivity|]. split; [reflexivity|].
-  unfold decode_flac_streaminfo. layout.
+  unfold decode_flac_streaminfo. rewrite if_false by reflexivity. layout.
   rewrite if_false.
   2:{ apply Z.eqb_neq. lia. }
   f_equal. list_lia.
